@@ -1,7 +1,6 @@
 /-
   Proofs.C06Check — decidable forms of the predicates of C06 (to discharge hypotheses on concrete
-  states by evaluation) and the machine-checked counterexamples to the unrestricted statements
-  (see ../COUNTEREXAMPLE_C06.md).
+  states by evaluation) and the machine-checked counterexamples to the unrestricted statements.
 -/
 import Proofs.C06Extra
 
@@ -59,55 +58,27 @@ theorem scalB_iff (c : Coll) : scalB c = true ↔ ScalarInv c := by
     | false => left; rfl
     | true => right; exact h ix hix hu
 
-/-- `KeysDistinctSym`, evaluated -/
-def keysB (c : Coll) : Bool :=
-  pairwiseB (fun a b => !pyEq a.1 b.1 && !pyEq b.1 a.1) c.docs
+/-! ### counterexample 1: a dotted index path that dead-ends in a scalar is not a null key -/
 
-theorem keysB_iff (c : Coll) : keysB c = true ↔ KeysDistinctSym c := by
-  simp [keysB, KeysDistinctSym, pairwiseB_iff]
+/-- unique index on `a.b` -/
+def cexIx : Index := Index.mk "a.b_1" [("a.b", Val.int 1)] true false none none
 
-/-- `WfDocs`, evaluated -/
-def wfDocsB (c : Coll) : Bool := c.docs.all (fun p => wfVal p.2)
-
-theorem wfDocsB_iff (c : Coll) : wfDocsB c = true ↔ WfDocs c := by
-  simp [wfDocsB, WfDocs]
-
-/-- a sufficient condition for `PfStable`: no unique index is partial -/
-def noPartialB (c : Coll) : Bool :=
-  c.indexes.all (fun ix => !ix.unique || ix.partialFilter.isNone)
-
-theorem pfStable_of_noPartial {c : Coll} (h : noPartialB c = true) : PfStable c := by
-  intro ix hix hu f hf
-  simp only [noPartialB, List.all_eq_true, Bool.or_eq_true, Bool.not_eq_true'] at h
-  rcases h ix hix with h' | h'
-  · rw [hu] at h'; cases h'
-  · rw [hf] at h'; cases h'
-
-/-! ### counterexample 1: the "not modified" branch stores without a uniqueness check -/
-
-/-- unique index on `k`, restricted to the documents whose `t` is a double -/
-def cexIx : Index := Index.mk "k_1" [("k", Val.int 1)] true false none
-  (some (Val.doc [("t", Val.doc [("$type", Val.str "double")])]))
-
-/-- `{_id: 1, k: 5, t: 1.0}` is covered, `{_id: 2, k: 5, t: 1}` is not -/
+/-- `{_id: 1, b: 1}`: no `a.b`, key `[null]` -/
 def cexColl : Coll :=
-  { docs := [(.int 1, .doc [("_id", .int 1), ("k", .int 5), ("t", .dbl 1 0)]),
-             (.int 2, .doc [("_id", .int 2), ("k", .int 5), ("t", .int 1)])],
-    indexes := [cexIx] }
+  { docs := [(.int 1, .doc [("_id", .int 1), ("b", .int 1)])], indexes := [cexIx] }
 
-/-- `update_one({_id: 2}, {$set: {t: 1.0}})`: the new document is `==` to the old one -/
-def cexOp : Val :=
-  .arr [.str "update_one", .doc [("_id", .int 2)], .doc [("$set", .doc [("t", .dbl 1 0)])], .bool false]
+/-- `insert_one({_id: 2, a: ""})`: no `a.b` either (the path runs into a string) — the look-up
+    `{a.b: null}` of `_ensure_uniques` does not match it (the matcher's dead-end defect, C01) -/
+def cexOp : Val := .arr [.str "insert_one", .doc [("_id", .int 2), ("a", .str "")]]
 
-theorem cex_before : uniqB cexColl = true ∧ scalB cexColl = true ∧ keysB cexColl = true ∧
-    wfDocsB cexColl = true := by decide +kernel
+theorem cex_before : uniqB cexColl = true ∧ scalB cexColl = true := by decide +kernel
 
 theorem cex_after : uniqB (stepColl {} 0 cexColl cexOp).1 = false ∧
-    scalB (stepColl {} 0 cexColl cexOp).1 = true ∧ wfDocsB (stepColl {} 0 cexColl cexOp).1 = true := by
+    scalB (stepColl {} 0 cexColl cexOp).1 = false := by
   decide +kernel
 
-/-- "every operation preserves `UniqInv`" is false, even on scalar keys, distinct store keys and
-    well-formed documents -/
+/-- "every operation preserves `UniqInv`" is false without a domain hypothesis (known finding
+    `deadend-null`) -/
 theorem step_uniq_false :
     ¬ (∀ (cfg : Cfg) (now : Int) (c : Coll) (op : Val), UniqInv c → UniqInv (stepColl cfg now c op).1) := by
   intro H
@@ -115,16 +86,42 @@ theorem step_uniq_false :
   rw [cex_after.1] at h1
   cases h1
 
-/-- … and so is the statement restricted to the scalar-key domain (the first formulation of
-    `step_uniq_inv_partial`) -/
-theorem step_uniq_scalar_false :
-    ¬ (∀ (cfg : Cfg) (now : Int) (c : Coll) (op : Val), UniqInv c → ScalarInv c →
-        ScalarInv (stepColl cfg now c op).1 → UniqInv (stepColl cfg now c op).1) := by
-  intro H
-  have h1 := (uniqB_iff _).2 (H {} 0 cexColl cexOp ((uniqB_iff _).1 cex_before.1)
-    ((scalB_iff _).1 cex_before.2.1) ((scalB_iff _).1 cex_after.2.1))
-  rw [cex_after.1] at h1
-  cases h1
+/-! ### the repaired defect `partial-type-sensitive` (library commit a320edd)
+
+An update whose result is `==` to the old document (`1 → 1.0`) used to be stored WITHOUT
+`_ensure_uniques`; with a partial filter that tells the two apart the statement restricted to the
+scalar-key domain was false on this witness.  The check now runs on that branch as well: the
+update is rejected and the collection is as before. -/
+
+/-- unique index on `k`, restricted to the documents whose `t` is a double -/
+def ptsIx : Index := Index.mk "k_1" [("k", Val.int 1)] true false none
+  (some (Val.doc [("t", Val.doc [("$type", Val.str "double")])]))
+
+/-- `{_id: 1, k: 5, t: 1.0}` is covered, `{_id: 2, k: 5, t: 1}` is not -/
+def ptsColl : Coll :=
+  { docs := [(.int 1, .doc [("_id", .int 1), ("k", .int 5), ("t", .dbl 1 0)]),
+             (.int 2, .doc [("_id", .int 2), ("k", .int 5), ("t", .int 1)])],
+    indexes := [ptsIx] }
+
+/-- `update_one({_id: 2}, {$set: {t: 1.0}})`: the new document is `==` to the old one -/
+def ptsOp : Val :=
+  .arr [.str "update_one", .doc [("_id", .int 2)], .doc [("$set", .doc [("t", .dbl 1 0)])], .bool false]
+
+theorem pts_before : uniqB ptsColl = true ∧ scalB ptsColl = true := by decide +kernel
+
+/-- the type of the field `t` of a document -/
+def tKind : Val → String
+  | .doc fs => (match dget "t" fs with
+    | some (.int _) => "int"
+    | some (.dbl _ _) => "double"
+    | _ => "?")
+  | _ => "?"
+
+/-- rejected (DuplicateKeyError), nothing stored: `t` of the second document is still an int -/
+theorem pts_after : (stepColl {} 0 ptsColl ptsOp).2.isErr = true ∧
+    uniqB (stepColl {} 0 ptsColl ptsOp).1 = true ∧
+    (stepColl {} 0 ptsColl ptsOp).1.docs.map (fun p => tKind p.2) = ["double", "int"] := by
+  decide +kernel
 
 /-! ### counterexample 2: a rejected duplicate insert need not raise a WriteError -/
 
